@@ -40,7 +40,8 @@ inline std::string Filter(Rng & r, int depth = 0)
       case 0: return std::string("i") + "><=!GL"[r.below(6)] + I(r.below(4));
       case 1: {const int lo = (int) r.below(30); return "w" + I(lo) + "-" + I(lo + (int) r.below(40));}
       case 2: return "e";
-      case 3: return std::string("i>") + I(r.below(3));
+      case 3: if (r.oneIn(2)) {const int idx = (int) r.below(2); return "t" + I(idx) + (idx ? "y" : "x") + I(r.below(idx ? 2 : 3)) + ";";}   // string value #idx of a two-valued field
+              return std::string("i>") + I(r.below(3));
       case 4: return "A(" + Filter(r, 1) + "," + Filter(r, 1) + ")";
       case 5: return "O(" + Filter(r, 1) + "," + Filter(r, 1) + ")";
       default: return std::string("i<") + I(1 + r.below(3));
